@@ -123,6 +123,22 @@ def build_jobs(ctx):
         if k % 5 == 0:
             A[order[0], order[0]] = 1
         jobs.append(dict(fn=FN, src="random-forest", A=A.tolist(), light=1))
+    # a dense part next to a long sparse part (clique + path + isolated nodes, shuffled numbering):
+    # the classical stress for matrix-power / counting implementations - walk counts explode in the
+    # dense part while the sparse part keeps the iteration going
+    for k in range(6 if ctx.quick else 40):
+        m, L, iso = rng.randint(12, 18), rng.randint(30, 44), rng.randint(0, 2)
+        n = m + L + iso
+        A = np.zeros((n, n))
+        A[:m, :m] = 1 - np.eye(m)
+        for x in range(m, m + L - 1):
+            A[x, x + 1] = A[x + 1, x] = rng.choice([1, 1, 3])
+        if k % 3 == 0:                     # sometimes the two parts are joined
+            A[0, m] = A[m, 0] = 1
+        p = list(range(n))
+        rng.shuffle(p)
+        A = A[np.ix_(p, p)]
+        jobs.append(dict(fn=FN, src="clique+path", A=A.tolist(), light=1))
     return jobs
 
 
